@@ -160,15 +160,18 @@ def ctor_case(case, res):
 RATE_MENU = [(1 * u.Hz, True), (2.5 * u.MHz, True), (4 / u.s, True), (1e-3 * u.mHz, True), (0 * u.Hz, False), (-1 * u.Hz, False),
              ([1, 2] * u.Hz, False), (1 * u.s, False), (1.0, False), (None, False), ([10] * u.MHz, False), ([[250]] * u.kHz, False),
              (np.array(3.0) * u.Hz, True), (np.nan * u.Hz, False), (-np.inf * u.MHz, False), (np.float32(2.0) * u.kHz, True),
-             (u.Quantity(3, u.Hz, dtype=int), True), ("1 Hz", False), (1 * u.Hz / u.s, False)]
+             (u.Quantity(3, u.Hz, dtype=int), True), ("1 Hz", False), (1 * u.Hz / u.s, False),
+             # not a positive real number once it is a double: complex values, a long-double denormal
+             (5j * u.Hz, False), ((1 + 5j) * u.Hz, False), (u.Quantity(np.longdouble("1e-400"), u.Hz), False)]
 FC_MENU = [(1 * u.GHz, True), (-3 * u.kHz, True), (0 * u.Hz, True), (7 / u.s, True), (1 * u.m, False), ([1, 2] * u.GHz, False),
            (5.0, False), (None, False), ([1.4] * u.GHz, False)]
 START_MENU = [(None, True), (T_OK, True), ("2020-01-01T00:00:00", True), (Time(59000.25, format="mjd", scale="tai"), True),
               (Time([59000.0, 59001.0], format="mjd"), False), ("garbage", False), (59000.5, False), ([1, 2], False),
               (Time([59000.0], format="mjd"), False)]
 ALIGN_MENU = [("bottom", True), ("center", True), ("top", True), ("Center", False), ("middle", False), (None, False), (0, False),
-              ("", False)]
-POL_MENU = [("linear", True), ("circular", True), ("Linear", False), ("lin", False), (None, False), (1, False)]
+              ("", False), (["center"], False), ({"center": 1}, False), (np.array("center"), False)]
+POL_MENU = [("linear", True), ("circular", True), ("Linear", False), ("lin", False), (None, False), (1, False), (["linear"], False),
+            ({"linear"}, False)]
 import collections as _c
 import types as _t
 META_MENU = [(None, True), ({}, True), ({"k": [1, 2]}, True), ([("a", 1)], True), (5, False), ("ab", False), ([1, 2], False),
